@@ -287,8 +287,33 @@ func main() {
 
 	// --- sentinels of known findings ----------------------------------------
 	sentinelInfo := map[string]string{}
+	var regressViolations []string
 	for _, f := range loadFindings() {
-		if !has(f.Properties, id) || f.Status != "known" {
+		if !has(f.Properties, id) {
+			continue
+		}
+		if f.Status == "fixed" {
+			// regression replay of a repaired defect: suppresses nothing, must pass
+			for _, sent := range strings.Fields(f.Sentinel) {
+				sp := filepath.Join(verifRoot, sent)
+				sunits, err := spec.Prepare(id, tier, seed, sp)
+				if err != nil {
+					inconclusive("prepare for regression replay %s failed: %v", f.ID, err)
+				}
+				for i := range sunits {
+					u := &sunits[i]
+					u.Shards = 1
+					u.Name = "regress-" + f.ID + "-" + u.Name
+					r := runShard(u, 0, id, tier, []string{"VERIF_REPLAY_IN=" + sp})
+					if r.exit != 0 {
+						fmt.Printf("--- regression replay of fixed finding %s fails again ---\n%s\n", f.ID, tail(filterOut(r.out), 30))
+						regressViolations = append(regressViolations, sp)
+					}
+				}
+			}
+			continue
+		}
+		if f.Status != "known" {
 			continue
 		}
 		if f.Sentinel == "" {
@@ -351,8 +376,9 @@ func main() {
 	// --- aggregate ------------------------------------------------------------
 	agg := statsFile{Classes: map[string]int64{}, Excluded: map[string]int64{}, Info: map[string]any{}, Exhaustive: map[string]bool{}}
 	hashes := map[uint64]struct{}{}
-	var violations []string
+	violations := append([]string{}, regressViolations...)
 	var problems []string
+	moreViolations := 0
 	for _, r := range results {
 		if r.stats != nil {
 			agg.Evaluations += r.stats.Evaluations
@@ -386,8 +412,12 @@ func main() {
 		}
 		name := fmt.Sprintf("%s#%d", r.unit.Name, r.shard)
 		if r.replay != "" {
-			violations = append(violations, saveReplay(id, r.replay, name))
-			fmt.Printf("--- failing output of %s ---\n%s\n", name, tail(filterOut(r.out), 60))
+			if len(violations) < 3 {
+				violations = append(violations, saveReplay(id, r.replay, name))
+				fmt.Printf("--- failing output of %s ---\n%s\n", name, tail(filterOut(r.out), 60))
+			} else {
+				moreViolations++
+			}
 			continue
 		}
 		if r.timedOut || strings.Contains(r.out, "test timed out") {
@@ -424,8 +454,12 @@ func main() {
 	// class floors
 	for _, fl := range spec.Floors {
 		got := agg.Classes[fl.Class]
-		if agg.Evaluations > 0 && float64(got) < fl.MinFrac*float64(agg.Evaluations) {
-			problems = append(problems, fmt.Sprintf("generator floor missed: class %q = %d of %d (< %.1f%%)", fl.Class, got, agg.Evaluations, fl.MinFrac*100))
+		den := agg.Evaluations
+		if fl.Of != "" {
+			den = agg.Classes[fl.Of]
+		}
+		if len(violations) == 0 && den > 0 && float64(got) < fl.MinFrac*float64(den) {
+			problems = append(problems, fmt.Sprintf("generator floor missed: class %q = %d of %d %s (< %.1f%%)", fl.Class, got, den, fl.Of, fl.MinFrac*100))
 		}
 	}
 
@@ -491,6 +525,9 @@ func main() {
 	if len(violations) > 0 {
 		for _, v := range violations {
 			fmt.Printf("VIOLATION property=%s replay=%s\n", id, v)
+		}
+		if moreViolations > 0 {
+			fmt.Printf("(%d further failing shards not listed)\n", moreViolations)
 		}
 		exitCode = 1
 	} else if len(problems) > 0 {
